@@ -19,6 +19,7 @@
 // std
 #include <queue>
 #include <atomic>
+#include <mutex>
 
 // romea
 #include "romea_core_common/time/Time.hpp"
@@ -49,6 +50,7 @@ public:
 private:
   size_t windowSize_;
 
+  mutable std::mutex mutex_;
   Duration lastPeriod_;
   SharedVariable<Duration> lastDuration_;
   std::queue<long long int> periods_;
